@@ -480,18 +480,11 @@ where
                     .get(reinsertion.hash)
                     .is_some_and(|addr| addr.sequence == reinsertion.sequence)
                 {
-                    let enqueued = self.buffer.as_mut().unwrap().push_slice(
+                    report(self.buffer.as_mut().unwrap().push_slice(
                         &reinsertion.slice[..reinsertion.len],
                         reinsertion.hash,
                         reinsertion.sequence,
-                    );
-                    if !enqueued {
-                        // The re-insertion is dropped (it does not fit the flush buffer), and the block it was read
-                        // from is being reclaimed: the index must not keep pointing into that block.
-                        self.indexer
-                            .remove_batch([(reinsertion.hash, reinsertion.sequence)]);
-                    }
-                    report(enqueued);
+                    ));
                 }
             }
             Submission::Wait { tx } => self.waiters.push(tx),
